@@ -531,7 +531,143 @@ def rule_union(P):
     return r
 
 
+def rule_ncalls(P):
+    """event_active_nolock_ and the pending deliveries of a signal event: an event that is already active keeps its call count (only the result flags are or-ed in); a signal event that
+    becomes active gets exactly the count it is activated with; the count of other events is not touched.  (The number of times the callback runs is the count.)"""
+    from ..interp import run_all, normx, nkey
+    r = Rule("C02-ncalls", "K6", "event_active_nolock_: an already-active event keeps its pending call count, a newly activated signal event gets the given count, once", floor=12)
+    f = P.fn("event_active_nolock_")
+    evv = ["var", f.params[0][0], "param"]
+    K = lambda fl: nkey(["fld", evv, fl, "->"])
+    kflags = nkey(["fld", ["fld", evv, "event.ev_evcallback", "->"], "event_callback.evcb_flags", "."])
+    kres = K("event.ev_res")
+    kev = K("event.ev_events")
+    kn = None
+    for el, lhs, op, rhs in f.stores():
+        l = strip(lhs)
+        if is_e(l, "fld") and l[2].endswith(".ev_ncalls"):
+            kn = nkey(normx(l))
+    if kn is None:
+        r.brk("no store of ev_ncalls in event_active_nolock_")
+        return r
+    basev = ["var", "base", "local"]
+    for flags in (0, L["ACTIVE"], L["ACTIVE_LATER"], L["INSERTED"], L["INSERTED"] | L["ACTIVE"]):
+        for events in (EV["SIGNAL"], EV["SIGNAL"] | EV["PERSIST"], EV["READ"]):
+            for ncalls in (1, 2):
+                env = {"#typed": 1, "event_debug_logging_mask_": 0, f.params[0][0]: 1, f.params[1][0]: EV["TIMEOUT"], f.params[2][0]: ncalls, kflags: flags, kres: EV["SIGNAL"], kev: events, kn: 3, "#act": 0,
+                       nkey(["fld", basev, "event_base.event_running_priority", "->"]): -1, nkey(["fld", basev, "event_base.current_event", "->"]): 0,
+                       nkey(["fld", basev, "event_base.th_base_lock", "->"]): 0, nkey(["fld", ["fld", evv, "event.ev_evcallback", "->"], "event_callback.evcb_pri", "."]): 0}
+
+                def hook(el, e_):
+                    n = callee_name(el.e)
+                    if n in ("event_callback_activate_nolock_", "event_queue_insert_active", "event_callback_activate_later_nolock_"):
+                        e_["#act"] += 1
+                        return 0
+                    if n in ("event_to_event_callback",):
+                        return 9
+                    if n in ("evthread_is_debug_lock_held_",):
+                        return 1
+                    if n in ("event_debugx_",):
+                        return 0
+                    return None
+                for o in run_all(f, (f.entry, 0), env, lambda el: False, P, hook, max_steps=400):
+                    if o.kind == "exit" and o.why == "noreturn":
+                        continue
+                    if o.kind == "unknown":
+                        r.brk("event_active_nolock_(flags %#x, events %#x): %s" % (flags, events, o.why))
+                        return r
+                    got = o.env.get(kn)
+                    was_active = bool(flags & L["ACTIVE"])
+                    want = 3 if (was_active or not (events & EV["SIGNAL"])) else ncalls
+                    want_act = 0 if was_active else 1
+                    r.inst((flags, events, ncalls), {"flags": hex(flags), "ev_events": hex(events), "ncalls_arg": ncalls, "pending_before": 3, "pending_after": got, "activations": o.env["#act"]})
+                    if got != want or o.env["#act"] != want_act:
+                        r.bad("K6:event_active_nolock_:pending-call-count", "%s:%d" % (f.file, f.line), f.name,
+                              "flags %#x, ev_events %#x, 3 deliveries pending, activated again with ncalls=%d: %s deliveries pending afterwards, queued %d time(s); expected %d pending, queued %d time(s)" % (
+                                  flags, events, ncalls, got, o.env["#act"], want, want_act))
+    seen, uniq = set(), []
+    for f_ in r.findings:
+        if f_.key not in seen:
+            seen.add(f_.key)
+            uniq.append(f_)
+    r.findings = uniq
+    return r
+
+
+def rule_io_timeout_fresh(P):
+    """the interval a persistent event is re-armed with (ev_io_timeout) belongs to one scheduling of the event: adding the event afresh (it is in no queue) without a timeout must not
+    leave the interval of an earlier add behind - the persist closure would arm a timeout nobody asked for as soon as the event fires for I/O; adding without a timeout while the event
+    is pending leaves its timeout alone"""
+    from ..interp import run_all, normx, nkey
+    r = Rule("C02-io-timeout", "K6", "event_add_nolock_(ev, NULL): a persistent event added afresh forgets the interval of an earlier add; a pending one keeps its timeout", floor=4)
+    f = P.fn("event_add_nolock_")
+    evv = ["var", f.params[0][0], "param"]
+    kflags = nkey(["fld", ["fld", evv, "event.ev_evcallback", "->"], "event_callback.evcb_flags", "."])
+    kclos = nkey(["fld", ["fld", evv, "event.ev_evcallback", "->"], "event_callback.evcb_closure", "."])
+    kev = nkey(["fld", evv, "event.ev_events", "->"])
+    ksec = kusec = None
+    for g in P.fns_in("event.c"):
+        for x in [el.e for el in g.elems()] + [b.term["cond"] for b in g.branch_blocks()]:
+            for q in walk(x):
+                if is_e(q, "fld") and q[2] == "timeval.tv_sec" and any(is_e(z, "fld") and z[2].endswith("ev_io_timeout") for z in walk(q)) and root_var(q) is not None and g is P.fn("event_persist_closure"):
+                    pass
+    io = ["fld", ["fld", evv, "event.ev_", "->"], "", "."]
+    # the spelling of ev->ev_io_timeout in this function
+    cand = None
+    for el, lhs, op, rhs in f.stores():
+        for q in walk(lhs):
+            if is_e(q, "fld") and "ev_timeout" in q[2] and is_e(strip(q[1]), "fld") and strip(q[1])[2].endswith("ev_io"):
+                cand = q
+    if cand is None:
+        r.brk("no store of ev_io_timeout in event_add_nolock_")
+        return r
+    ksec = nkey(normx(["fld", cand, "timeval.tv_sec", "."]))
+    kusec = nkey(normx(["fld", cand, "timeval.tv_usec", "."]))
+    basev = ["var", "base", "local"]
+    PERSIST = 2
+    for g in P.fns_in("event.c"):
+        for x in [el.e for el in g.elems()] + [b.term["cond"] for b in g.branch_blocks()]:
+            for q in walk(x):
+                if is_e(q, "int") and len(q) > 2 and q[2] == "EV_CLOSURE_EVENT_PERSIST":
+                    PERSIST = q[1]
+    cases = [("fresh", 0, True), ("pending with a timeout", L["INSERTED"] | L["TIMEOUT"], False), ("pending without a timeout", L["INSERTED"], False), ("active", L["INSERTED"] | L["ACTIVE"], False)]
+    for cname, flags, cleared in cases:
+        env = {"#typed": 1, "event_debug_logging_mask_": 0, "event_debug_mode_on_": 0, f.params[0][0]: 1, f.params[1][0]: 0, f.params[2][0]: 0, kflags: flags, kclos: PERSIST, kev: EV["READ"] | EV["PERSIST"], ksec: 5, kusec: 0,
+               nkey(["fld", basev, "event_base.current_event", "->"]): 0, nkey(["fld", basev, "event_base.th_base_lock", "->"]): 0}
+
+        def hook(el, e_):
+            n = callee_name(el.e)
+            if n in ("evmap_io_add_", "evmap_signal_add_"):
+                return 0
+            if n in ("event_queue_insert_inserted", "event_debug_assert_is_setup_", "event_debugx_", "evthread_notify_base"):
+                return 0
+            if n in ("evthread_is_debug_lock_held_",):
+                return 1
+            if n == "event_to_event_callback":
+                return 9
+            if n in ("memset", "__builtin_memset", "__builtin___memset_chk"):
+                a = el.e[2]
+                if any(is_e(q, "fld") and "ev_timeout" in q[2] and is_e(strip(q[1]), "fld") and strip(q[1])[2].endswith("ev_io") for q in walk(a[0])):
+                    e_[ksec] = 0
+                    e_[kusec] = 0
+                return 0
+            return None
+        for o in run_all(f, (f.entry, 0), env, lambda el: False, P, hook, max_steps=800):
+            if o.kind == "exit" and o.why == "noreturn":
+                continue
+            if o.kind == "unknown":
+                r.brk("event_add_nolock_(%s): %s" % (cname, o.why))
+                return r
+            got = (o.env.get(ksec), o.env.get(kusec))
+            want = (0, 0) if cleared else (5, 0)
+            r.inst(cname, {"event": cname, "tv": None, "interval_before": [5, 0], "interval_after": list(got)})
+            if got != want:
+                r.bad("K6:event_add_nolock_:stale-interval" if cleared else "K6:event_add_nolock_:interval-lost", "%s:%d" % (f.file, f.line), f.name,
+                      "persistent event, %s, added with tv == NULL: re-arm interval %s afterwards, expected %s" % (cname, got, want))
+    return r
+
+
 def run(ctx, config):
     P = ctx.prog(UNITS, config)
     Pall = ctx.prog(None, config)
-    return [rule_machine(P, config), rule_who(Pall), rule_pending(P), rule_bittest(Pall), rule_expiry(P), rule_union(P)]
+    return [rule_machine(P, config), rule_who(Pall), rule_pending(P), rule_bittest(Pall), rule_expiry(P), rule_union(P), rule_ncalls(P), rule_io_timeout_fresh(P)]
